@@ -183,10 +183,52 @@ def _run(cd, runtime, data, force_dfs=None):
     return {"ok": {"mapping": mapping, "attrs": attrs, "getattr": ga, "fresh": fresh, "contains": contains}}, cls
 
 
+def _run_func(cd, data, force_dfs):
+    """a keyword-only function with the same parameters (C06: functions reach the same two loops)"""
+    import warnings
+    import utype
+    from utype.utils import exceptions as exc
+    warnings.simplefilter("ignore")
+    T = _types()
+    ns, params, atts = {}, [], []
+    try:
+        for i, fd in enumerate(cd["fields"]):
+            f, _ = _field(fd)
+            ns[f"P{i}"], ns[f"T{i}"] = f, T[fd.get("type", "any")]
+            params.append(f"{fd['attname']}: T{i} = P{i}")
+            atts.append(fd["attname"])
+        kw = ", **kw" if cd.get("kwargs") else ""
+        body = ", ".join(f"{a}={a}" for a in atts)
+        src = f"def f(*, {', '.join(params)}{kw}):\n    return dict({body}{', **kw' if kw else ''})\n"
+        exec(src, ns)
+        fn = utype.parse(ns["f"], options=_options(cd.get("opts", {}), cd.get("addition_type"), force_dfs))
+    except (exc.ConfigError, SyntaxError) as e:
+        return {"config_error": type(e).__name__}
+    except Exception as e:
+        return {"config_error": "other:" + type(e).__name__}
+    try:
+        r = fn(**dict((k, copy.deepcopy(v)) for k, v in data))
+    except exc.CollectedParseError as e:
+        return {"collected": [_err(x) for x in e.errors]}
+    except exc.ParseError as e:
+        return {"raised": _err(e)}
+    except Exception as e:
+        return {"escape": f"{type(e).__name__}: {e}"[:160]}
+    m = {k: vtext(v) for k, v in r.items()}
+    return {"ok": {"mapping": m, "attrs": m, "getattr": {}}}
+
+
 def impl(case):
     """as declared + once per strategy, on the real code; plus the leaf-converter tables"""
     from utype import type_transform
     cd, runtime, data = case["cls"], case.get("runtime"), case["data"]
+    if case.get("kind") == "func":
+        out = _run_func(cd, data, None)
+        res = {"out": out, "func": True}
+        if "config_error" not in out:
+            res["df"] = _run_func(cd, data, True)
+            res["ff"] = _run_func(cd, data, False)
+        return res
     out, cls = _run(cd, runtime, data)
     res = {"out": out}
     if "config_error" in out:
@@ -741,6 +783,28 @@ def gen_case(rng: random.Random, maxfields=4):
     return {"cls": cd, "runtime": runtime, "data": gen_data(rng, cd, copts)}
 
 
+def gen_func_case(rng: random.Random):
+    """the same declaration as a keyword-only function (legal for FunctionParser.check_function)"""
+    c = gen_case(rng)
+    for fd in c["cls"]["fields"]:
+        fd["defer"] = False
+        fd["attname"] = fd["attname"]
+        if fd["default"] is None and (fd["required"] is False or fd["no_input"] is not False or fd["mode"]
+                                      or isinstance(fd["required"], str)):
+            fd["default"] = {"v": rng.choice([5, "5", 0]), "factory": False}
+    o = dict(c["runtime"] if c["runtime"] is not None else c["cls"]["opts"])
+    for k in ("no_default", "defer_default"):
+        o.pop(k, None)
+    c["cls"]["kwargs"] = o.get("addition") is True or rng.random() < 0.2
+    if not c["cls"]["kwargs"] and o.get("addition") is True:
+        o.pop("addition")
+    c["cls"]["opts"] = o
+    c["runtime"] = None
+    c["kind"] = "func"
+    c["data"] = gen_data(rng, c["cls"], o)
+    return c
+
+
 def grid_cases(limit=None):
     """thorough: every combination of a reduced parameter grid for 2-field declarations"""
     out = []
@@ -817,7 +881,7 @@ class C05(Check):
         lines, idx = [], []
         self._keys = {}
         for i, (c, io) in enumerate(zip(cases, impl_outs)):
-            if isinstance(io, dict) and "out" in io:
+            if isinstance(io, dict) and "out" in io and not io.get("func"):
                 line, keys = model_line(c, io, self.legacy)
                 lines.append(line)
                 idx.append((i, keys))
@@ -834,6 +898,8 @@ class C05(Check):
     def compare(self, case, io, mo):
         if not isinstance(io, dict) or "out" not in io:
             return f"impl: {io}"
+        if io.get("func"):
+            return None          # functions are outside the modelled fragment (oracle only)
         if not isinstance(mo, dict) or "model" not in mo:
             return f"driver: {mo}"
         if "config_error" in io["out"]:
@@ -853,7 +919,7 @@ class C05(Check):
     def spec(self, case, io, mo):
         if not isinstance(io, dict) or "out" not in io:
             return f"no outcome: {io}"
-        if "config_error" in io["out"]:
+        if "config_error" in io["out"] or io.get("func"):
             return None
         want = self.want(case, io)
         # the Python oracle and the Lean spec must be the same function
@@ -927,6 +993,8 @@ class C05(Check):
             return "config-error"
         kind = "ok" if "ok" in out else ("raised:" + out["raised"][0] if "raised" in out else
                                          ("collected" if "collected" in out else "escape"))
+        if io.get("func"):
+            kind = "func:" + kind
         feats = ",".join(sorted(self.features(case, io) - {"fails"})) or "plain"
         return f"{kind}|{feats}"
 
